@@ -112,3 +112,27 @@ package migrate
 //@   loop 3 invariant (forall j int :: 0 <= j && j < GvcExec.N - old(GvcExec.N) ==>
 //@           GvcAt(GvcExec, old(GvcExec.N)+j) == stmts[gvcK0(old(gvcHas(m.Version())), old(gvcRev(m.Version())))+j].Text)
 //@   loop 3 invariant r.Applied >= gvcK0(old(gvcHas(m.Version())), old(gvcRev(m.Version())))
+
+// ---------------------------------------------------------------------------------------
+// C17: reverse statements
+
+//@ spec func GvcRevLen(c *Change) int {
+//@ spec 	switch r := c.Reverse.(type) {
+//@ spec 	case string:
+//@ spec 		return 1
+//@ spec 	case []string:
+//@ spec 		return len(r)
+//@ spec 	}
+//@ spec 	return 0
+//@ spec }
+//@ spec func GvcRevOK(c *Change) bool {
+//@ spec 	return c.Reverse == nil || GvcIs[string](c.Reverse) || GvcIs[[]string](c.Reverse)
+//@ spec }
+
+//@ func (c *Change) ReverseStmts() (cmd []string, err error)
+//@   requires c != nil
+//@   ensures total: (err == nil) == GvcRevOK(c)
+//@   ensures count: err == nil ==> len(cmd) == GvcRevLen(c)
+//@   ensures single: GvcIs[string](c.Reverse) ==> len(cmd) == 1 && cmd[0] == c.Reverse.(string)
+//@   ensures list: GvcIs[[]string](c.Reverse) ==> len(cmd) == len(c.Reverse.([]string)) &&
+//@           (forall i int :: 0 <= i && i < len(cmd) ==> cmd[i] == c.Reverse.([]string)[i])
